@@ -9,26 +9,26 @@ use proptest::sample::select;
 use proptest::strategy::Union;
 use std::fmt::Debug;
 
-type BS<T> = BoxedStrategy<T>;
+pub(super) type BS<T> = BoxedStrategy<T>;
 
-fn pick<T: Debug + 'static>(opts: Vec<(u32, BS<T>)>) -> BS<T> {
+pub(super) fn pick<T: Debug + 'static>(opts: Vec<(u32, BS<T>)>) -> BS<T> {
     let v: Vec<(u32, BS<T>)> = opts.into_iter().filter(|(w, _)| *w > 0).collect();
     Union::new_weighted(v).boxed()
 }
 
-fn sel(names: &'static [&'static str]) -> BS<String> {
+pub(super) fn sel(names: &'static [&'static str]) -> BS<String> {
     select(names).prop_map(|s| s.to_string()).boxed()
 }
 
-fn rx(pattern: &str) -> BS<String> {
+pub(super) fn rx(pattern: &str) -> BS<String> {
     proptest::string::string_regex(pattern).expect("valid regex").boxed()
 }
 
-fn prob(p: f64) -> BS<bool> {
+pub(super) fn prob(p: f64) -> BS<bool> {
     proptest::bool::weighted(p).boxed()
 }
 
-fn gated(on: bool, p: f64) -> BS<bool> {
+pub(super) fn gated(on: bool, p: f64) -> BS<bool> {
     if on {
         prob(p)
     } else {
@@ -36,29 +36,29 @@ fn gated(on: bool, p: f64) -> BS<bool> {
     }
 }
 
-fn opt<T: Debug + Clone + 'static>(s: BS<T>, p: f64) -> BS<Option<T>> {
+pub(super) fn opt<T: Debug + Clone + 'static>(s: BS<T>, p: f64) -> BS<Option<T>> {
     proptest::option::weighted(p, s).boxed()
 }
 
 const VALUE_NAMES: &[&str] = &[
     "x", "y", "z", "a", "b", "f", "n", "i", "item", "acc", "total", "data", "foo", "bar_baz", "_tmp", "x1", "value2", "_", "r", "e1",
 ];
-const FUNC_NAMES: &[&str] = &["main", "run", "helper", "compute", "f", "get_value", "test_it", "new", "_private", "to_str"];
-const TYPE_NAMES: &[&str] = &["Foo", "Bar", "Point", "Shape", "Node2", "Item_", "Color", "Maybe"];
+pub(super) const FUNC_NAMES: &[&str] = &["main", "run", "helper", "compute", "f", "get_value", "test_it", "new", "_private", "to_str"];
+pub(super) const TYPE_NAMES: &[&str] = &["Foo", "Bar", "Point", "Shape", "Node2", "Item_", "Color", "Maybe"];
 const TPARAM_NAMES: &[&str] = &["T", "E", "K", "V", "U"];
 const BUILTIN_TYPES: &[&str] = &["int", "str", "float", "bool", "bytes", "Unit", "Tuple", "List", "tuple", "T", "E"];
 const GENERIC_NAMES: &[&str] = &["List", "Dict", "Set", "Option", "Result", "Tuple", "tuple", "FrozenList", "Foo", "list"];
 const FIELD_NAMES: &[&str] = &["name", "id", "value", "x", "y", "items", "count", "_inner", "None", "len"];
-const METHOD_NAMES: &[&str] = &["get", "push", "append", "len", "to_string", "map", "unwrap", "area", "from_underlying", "None"];
+pub(super) const METHOD_NAMES: &[&str] = &["get", "push", "append", "len", "to_string", "map", "unwrap", "area", "from_underlying", "None"];
 const DECORATOR_NAMES: &[&str] = &["derive", "route", "requires", "cache", "test", "fixture", "staticmethod", "rust_"];
 const MODULE_NAMES: &[&str] = &["models", "utils", "helpers", "db", "api", "config", "std", "collections", "serde_json", "prelude"];
 
-fn is_reserved(s: &str) -> bool {
+pub(super) fn is_reserved(s: &str) -> bool {
     incan_core::lang::keywords::from_str(s).is_some() || s == "Self"
 }
 
 /// value-level identifier (never a keyword)
-fn vname() -> BS<String> {
+pub(super) fn vname() -> BS<String> {
     pick(vec![
         (8, sel(VALUE_NAMES)),
         (1, rx("[a-z_][a-z0-9_]{0,5}").prop_map(|s| if is_reserved(&s) { format!("{s}_v") } else { s }).boxed()),
@@ -66,18 +66,18 @@ fn vname() -> BS<String> {
 }
 
 /// identifier that is not `_` (pattern bindings, names being defined)
-fn bname() -> BS<String> {
+pub(super) fn bname() -> BS<String> {
     vname().prop_map(|s| if s == "_" { "_u".to_string() } else { s }).boxed()
 }
 
-fn tname() -> BS<String> {
+pub(super) fn tname() -> BS<String> {
     pick(vec![
         (8, sel(TYPE_NAMES)),
         (1, rx("[A-Z][a-zA-Z0-9]{0,5}").prop_map(|s| if is_reserved(&s) { format!("{s}X") } else { s }).boxed()),
     ])
 }
 
-fn tparams(on: bool) -> BS<Vec<String>> {
+pub(super) fn tparams(on: bool) -> BS<Vec<String>> {
     if on {
         pick(vec![(3, Just(Vec::new()).boxed()), (2, vec(sel(TPARAM_NAMES), 1..3).boxed())])
     } else {
@@ -118,7 +118,7 @@ pub fn gtype(cfg: &GsynConfig) -> BS<GType> {
 // literals
 // --------------------------------------------------------------------------------------------------------------
 
-fn text_piece() -> BS<String> {
+pub(super) fn text_piece() -> BS<String> {
     pick(vec![
         (8, rx("[a-zA-Z0-9 _.,:;!?#@()/+*<>=%$-]{1,8}")),
         (1, select(&["é", "😀", "ß→", "日本"][..]).prop_map(|s| s.to_string()).boxed()),
@@ -127,13 +127,13 @@ fn text_piece() -> BS<String> {
 }
 
 #[derive(Clone, Copy, PartialEq, Eq)]
-enum StrKind {
+pub(super) enum StrKind {
     Ordinary,
     Docstring,
     PythonPkg,
 }
 
-fn gstr(cfg: &GsynConfig, kind: StrKind) -> BS<GStr> {
+pub(super) fn gstr(cfg: &GsynConfig, kind: StrKind) -> BS<GStr> {
     let multiline = cfg.on("lit.string.multiline");
     let doc_special = cfg.on("docstring.special");
     let py_special = cfg.on("import.python.special");
@@ -180,7 +180,7 @@ fn gstr(cfg: &GsynConfig, kind: StrKind) -> BS<GStr> {
         .boxed()
 }
 
-fn gbytes(cfg: &GsynConfig) -> BS<GBytes> {
+pub(super) fn gbytes(cfg: &GsynConfig) -> BS<GBytes> {
     let special = cfg.on("lit.bytes.special");
     let piece = pick(vec![
         (5, rx("[a-zA-Z0-9 _.,:;!?#@()/+*<>=-]{1,6}").prop_map(BPiece::Text).boxed()),
@@ -213,7 +213,7 @@ fn gbytes(cfg: &GsynConfig) -> BS<GBytes> {
         .boxed()
 }
 
-fn fexpr() -> BS<FExpr> {
+pub(super) fn fexpr() -> BS<FExpr> {
     pick(vec![
         (4, bname().prop_map(FExpr::Ident).boxed()),
         (2, (bname(), sel(FIELD_NAMES)).prop_map(|(a, b)| FExpr::Field(a, b)).boxed()),
@@ -226,7 +226,7 @@ fn fexpr() -> BS<FExpr> {
     ])
 }
 
-fn gfstr(cfg: &GsynConfig) -> BS<GFStr> {
+pub(super) fn gfstr(cfg: &GsynConfig) -> BS<GFStr> {
     let special = cfg.on("fstring.literal_special");
     let part = pick(vec![
         (5, text_piece().prop_map(FPart::Text).boxed()),
@@ -254,7 +254,7 @@ fn gfstr(cfg: &GsynConfig) -> BS<GFStr> {
         .boxed()
 }
 
-fn float_lit(cfg: &GsynConfig) -> BS<GLit> {
+pub(super) fn float_lit(cfg: &GsynConfig) -> BS<GLit> {
     let frac = (0u32..1000, 1u32..1000, 0u8..4, 1u8..6).prop_map(|(a, b, style, k)| {
         let text = match style {
             0 => format!("{a}.{b}"),
@@ -301,7 +301,7 @@ pub fn glit(cfg: &GsynConfig) -> BS<GLit> {
 // expressions
 // --------------------------------------------------------------------------------------------------------------
 
-const BINOPS: &[BinOp] = &[
+pub(super) const BINOPS: &[BinOp] = &[
     BinOp::Add,
     BinOp::Sub,
     BinOp::Mul,
@@ -322,13 +322,13 @@ const BINOPS: &[BinOp] = &[
     BinOp::Is,
 ];
 
-fn brlayout(cfg: &GsynConfig) -> BS<BrLayout> {
+pub(super) fn brlayout(cfg: &GsynConfig) -> BS<BrLayout> {
     (prob(0.2), gated(cfg.on("surface.multiline_brackets"), 0.12))
         .prop_map(|(trailing_comma, multiline)| BrLayout { trailing_comma, multiline })
         .boxed()
 }
 
-fn expr_leaf(cfg: &GsynConfig) -> BS<GExpr> {
+pub(super) fn expr_leaf(cfg: &GsynConfig) -> BS<GExpr> {
     pick(vec![
         (6, vname().prop_map(GExpr::Ident).boxed()),
         (6, glit(cfg).prop_map(GExpr::Lit).boxed()),
@@ -337,11 +337,11 @@ fn expr_leaf(cfg: &GsynConfig) -> BS<GExpr> {
     ])
 }
 
-fn bx(e: GExpr) -> Box<GExpr> {
+pub(super) fn bx(e: GExpr) -> Box<GExpr> {
     Box::new(e)
 }
 
-fn expr_rec(cfg: &GsynConfig, depth: u32, size: u32) -> BS<GExpr> {
+pub(super) fn expr_rec(cfg: &GsynConfig, depth: u32, size: u32) -> BS<GExpr> {
     let step_no_end = cfg.on("slice.step_no_end");
     let closure_params = if cfg.on("closure.params=1") { vec(bname(), 0..3).boxed() } else { Just(Vec::new()).boxed() };
     let (w_closure, w_yield) = (cfg.w("expr.closure", 1), cfg.w("expr.yield", 1));
@@ -414,7 +414,7 @@ pub fn gexpr(cfg: &GsynConfig) -> BS<GExpr> {
     expr_rec(cfg, cfg.expr_depth, 14)
 }
 
-fn expr_small(cfg: &GsynConfig) -> BS<GExpr> {
+pub(super) fn expr_small(cfg: &GsynConfig) -> BS<GExpr> {
     expr_rec(cfg, 1, 4)
 }
 
@@ -447,18 +447,18 @@ pub fn gpat(cfg: &GsynConfig) -> BS<GPat> {
 // statements
 // --------------------------------------------------------------------------------------------------------------
 
-const COPS: &[COp] = &[COp::Add, COp::Sub, COp::Mul, COp::Div, COp::FloorDiv, COp::Mod];
+pub(super) const COPS: &[COp] = &[COp::Add, COp::Sub, COp::Mul, COp::Div, COp::FloorDiv, COp::Mod];
 
 /// `obj.f op= rhs` is desugared by the parser into `obj.f = obj.f op rhs` without a Paren node; with the switch off
 /// the right side is parenthesised whenever it binds no tighter than `op`.
-fn guard_rhs(compound_on: bool, op: Option<COp>, value: GExpr) -> GExpr {
+pub(super) fn guard_rhs(compound_on: bool, op: Option<COp>, value: GExpr) -> GExpr {
     match op {
         Some(op) if !compound_on && value.level() <= op.level() => GExpr::Paren(Box::new(value)),
         _ => value,
     }
 }
 
-fn simple_stmt(cfg: &GsynConfig) -> BS<GStmt> {
+pub(super) fn simple_stmt(cfg: &GsynConfig) -> BS<GStmt> {
     let compound_on = cfg.on("assign.compound_target");
     let e = gexpr(cfg);
     let es = expr_small(cfg);
@@ -510,7 +510,7 @@ fn simple_stmt(cfg: &GsynConfig) -> BS<GStmt> {
 
 /// Everything the statement recursion needs, built once (the recursion closure runs on every new_tree()).
 #[derive(Clone)]
-struct StmtParts {
+pub(super) struct StmtParts {
     max_body: usize,
     expr: BS<GExpr>,
     simple: BS<GStmt>,
@@ -526,7 +526,7 @@ struct StmtParts {
     paren_arm_ok: bool,
 }
 
-fn inline_stmt(e: &BS<GExpr>, nested: Option<BS<GTail>>) -> BS<GInline> {
+pub(super) fn inline_stmt(e: &BS<GExpr>, nested: Option<BS<GTail>>) -> BS<GInline> {
     let mut opts = vec![
         (1, opt(e.clone(), 0.7).prop_map(|v| GInline::Return(v.map(GTail::E))).boxed()),
         (1, prob(0.4).prop_map(GInline::Pass).boxed()),
@@ -539,7 +539,7 @@ fn inline_stmt(e: &BS<GExpr>, nested: Option<BS<GTail>>) -> BS<GInline> {
     pick(opts)
 }
 
-fn arm(pat: &BS<GPat>, guard: &BS<Option<GExpr>>, body: BS<Vec<GStmt>>, inline: BS<GInline>) -> BS<GArm> {
+pub(super) fn arm(pat: &BS<GPat>, guard: &BS<Option<GExpr>>, body: BS<Vec<GStmt>>, inline: BS<GInline>) -> BS<GArm> {
     let form = pick(vec![
         (2, (guard.clone(), body.clone()).prop_map(|(guard, body)| ArmForm::CaseBlock { guard, body }).boxed()),
         (2, (guard.clone(), inline.clone()).prop_map(|(guard, stmt)| ArmForm::CaseInline { guard, stmt }).boxed()),
@@ -549,7 +549,7 @@ fn arm(pat: &BS<GPat>, guard: &BS<Option<GExpr>>, body: BS<Vec<GStmt>>, inline: 
     (pat.clone(), form).prop_map(|(pat, form)| GArm { pat, form }).boxed()
 }
 
-fn fix_arms(paren_arm_ok: bool, mut arms: Vec<GArm>) -> Vec<GArm> {
+pub(super) fn fix_arms(paren_arm_ok: bool, mut arms: Vec<GArm>) -> Vec<GArm> {
     if !paren_arm_ok {
         // an arm whose inline body is a block expression must not be followed by a `(..)` pattern
         for i in 1..arms.len() {
@@ -565,7 +565,7 @@ fn fix_arms(paren_arm_ok: bool, mut arms: Vec<GArm>) -> Vec<GArm> {
     arms
 }
 
-fn stmt_parts(cfg: &GsynConfig) -> StmtParts {
+pub(super) fn stmt_parts(cfg: &GsynConfig) -> StmtParts {
     let expr = gexpr(cfg);
     let small = expr_small(cfg);
     let simple = simple_stmt(cfg);
@@ -602,7 +602,7 @@ fn stmt_parts(cfg: &GsynConfig) -> StmtParts {
 }
 
 /// tails (block-structured expressions) whose bodies are built from `inner` statements
-fn tail(p: &StmtParts, inner: &BS<GStmt>, allow_if: bool) -> BS<GTail> {
+pub(super) fn tail(p: &StmtParts, inner: &BS<GStmt>, allow_if: bool) -> BS<GTail> {
     let body = vec(inner.clone(), 1..=p.max_body).boxed();
     let full_arm = arm(&p.pat, &p.guard, body.clone(), inline_stmt(&p.expr, p.simple_match.clone()));
     let paren_arm_ok = p.paren_arm_ok;
@@ -644,7 +644,7 @@ pub fn gstmt(cfg: &GsynConfig) -> BS<GStmt> {
         .boxed()
 }
 
-fn body(cfg: &GsynConfig) -> BS<Vec<GStmt>> {
+pub(super) fn body(cfg: &GsynConfig) -> BS<Vec<GStmt>> {
     vec(gstmt(cfg), 1..=cfg.max_body).boxed()
 }
 
@@ -652,7 +652,7 @@ fn body(cfg: &GsynConfig) -> BS<Vec<GStmt>> {
 // declarations
 // --------------------------------------------------------------------------------------------------------------
 
-fn decorator(cfg: &GsynConfig) -> BS<GDecorator> {
+pub(super) fn decorator(cfg: &GsynConfig) -> BS<GDecorator> {
     let arg = pick(vec![
         (3, expr_small(cfg).prop_map(GDecArg::Pos).boxed()),
         (2, (bname(), expr_small(cfg)).prop_map(|(n, e)| GDecArg::NamedExpr(n, e)).boxed()),
@@ -661,17 +661,17 @@ fn decorator(cfg: &GsynConfig) -> BS<GDecorator> {
     (sel(DECORATOR_NAMES), opt(vec(arg, 0..4).boxed(), 0.5)).prop_map(|(name, args)| GDecorator { name, args }).boxed()
 }
 
-fn decorators(cfg: &GsynConfig) -> BS<Vec<GDecorator>> {
+pub(super) fn decorators(cfg: &GsynConfig) -> BS<Vec<GDecorator>> {
     pick(vec![(3, Just(Vec::new()).boxed()), (2, vec(decorator(cfg), 1..3).boxed())])
 }
 
-fn params(cfg: &GsynConfig) -> BS<Vec<GParam>> {
+pub(super) fn params(cfg: &GsynConfig) -> BS<Vec<GParam>> {
     let p = (gated(cfg.on("param.mut=1"), 0.25), bname(), gtype(cfg), opt(expr_small(cfg), 0.25))
         .prop_map(|(is_mut, name, ty, default)| GParam { is_mut, name, ty, default });
     vec(p, 0..4).boxed()
 }
 
-fn method(cfg: &GsynConfig) -> BS<GMethod> {
+pub(super) fn method(cfg: &GsynConfig) -> BS<GMethod> {
     let mbody = pick(vec![
         (1, Just(GMethodBody::AbstractNewline).boxed()),
         (1, Just(GMethodBody::AbstractEllipsis).boxed()),
@@ -698,13 +698,13 @@ fn method(cfg: &GsynConfig) -> BS<GMethod> {
         .boxed()
 }
 
-fn field(cfg: &GsynConfig) -> BS<GField> {
+pub(super) fn field(cfg: &GsynConfig) -> BS<GField> {
     (prob(0.25), sel(FIELD_NAMES), gtype(cfg), opt(expr_small(cfg), 0.3))
         .prop_map(|(is_pub, name, ty, default)| GField { is_pub, name: if name == "None" { "none_".into() } else { name }, ty, default })
         .boxed()
 }
 
-fn class_like(cfg: &GsynConfig, is_class: bool) -> BS<GClassLike> {
+pub(super) fn class_like(cfg: &GsynConfig, is_class: bool) -> BS<GClassLike> {
     let extends = if is_class { opt(tname(), 0.4) } else { Just(None).boxed() };
     let members = (vec(field(cfg), 0..4), vec(method(cfg), 0..3)).prop_flat_map({
         let cfg = cfg.clone();
@@ -731,7 +731,7 @@ fn class_like(cfg: &GsynConfig, is_class: bool) -> BS<GClassLike> {
         .boxed()
 }
 
-fn path(cfg: &GsynConfig) -> BS<GPath> {
+pub(super) fn path(cfg: &GsynConfig) -> BS<GPath> {
     let bare_crate = cfg.on("import.path.crate_bare");
     let empty = cfg.on("import.path.empty");
     (0u8..4, 1u8..3, prob(0.3), vec(sel(MODULE_NAMES), 0..4))
@@ -749,7 +749,7 @@ fn path(cfg: &GsynConfig) -> BS<GPath> {
         .boxed()
 }
 
-fn import(cfg: &GsynConfig) -> BS<GImport> {
+pub(super) fn import(cfg: &GsynConfig) -> BS<GImport> {
     let alias = opt(bname(), 0.4);
     let items = vec((pick(vec![(1, bname()), (1, tname())]), opt(bname(), 0.3)), 1..4).boxed();
     let rpath = vec(pick(vec![(1, sel(MODULE_NAMES)), (1, tname())]), 0..3).boxed();
@@ -801,7 +801,7 @@ pub fn gdecl(cfg: &GsynConfig) -> BS<GDecl> {
     ])
 }
 
-fn layout(cfg: &GsynConfig) -> BS<Layout> {
+pub(super) fn layout(cfg: &GsynConfig) -> BS<Layout> {
     if !cfg.layout_variation {
         return Just(Layout::canonical()).boxed();
     }
